@@ -181,8 +181,9 @@ func (c *completion) closureCompletes(cl *ssa.Function, cell *ssa.Alloc) bool {
 	res := false
 	for _, f := range withClosures(cl) {
 		eachInstr(f, func(in ssa.Instruction) {
+			want := p.varKeyOfBinding(cell)
 			chk := func(v ssa.Value) {
-				if k, ok := p.varKey(v).(*ssa.Alloc); ok && k == cell {
+				if p.varKey(v) == want {
 					res = true
 				}
 			}
@@ -227,6 +228,9 @@ func (p *Prog) sameVar(a, b ssa.Value) bool {
 
 func (p *Prog) varKeyOfBinding(v ssa.Value) interface{} {
 	if a, ok := v.(*ssa.Alloc); ok && p.localCell(a) != nil {
+		if st := p.storesToCell(a); len(st) == 1 {
+			return p.varKey(st[0])
+		}
 		return a
 	}
 	return p.varKey(v)
@@ -626,7 +630,7 @@ func closureRegisters(comp *completion, cl *ssa.Function, cell *ssa.Alloc) bool 
 				if cal := call.Common().StaticCallee(); cal != nil {
 					for j, a := range call.Common().Args {
 						if comp.registers[cal][j] {
-							if k, ok := p.varKey(a).(*ssa.Alloc); ok && k == cell {
+							if p.varKey(a) == p.varKeyOfBinding(cell) {
 								res = true
 							}
 						}
